@@ -1,7 +1,7 @@
 SPECIFICATION Spec
 CONSTANTS
-  HistLen = 3
-  Rich = FALSE
+  HistLen = 2
+  Rich = TRUE
 INVARIANT InvReadOnly
 INVARIANT InvDomain
 CHECK_DEADLOCK FALSE
